@@ -100,3 +100,197 @@ Theorem refresh_keeps_type e size c :
   | _, _ => False
   end.
 Proof. destruct e; cbn; repeat split; reflexivity. Qed.
+
+(* ---- resolution is stable under the writes of save_manifest, hence: save_manifest touches one file ---- *)
+From Gemato Require Import Proofs.SortTheory.
+
+Lemma lookup_replace_same nodes i n m : lookup_ino nodes i = Some m -> lookup_ino (replace_node nodes i n) i = Some n.
+Proof.
+  induction nodes as [|[k x] r IH]; [discriminate|]. cbn [lookup_ino replace_node map fst].
+  destruct (i =? k) eqn:E.
+  - apply N.eqb_eq in E. subst k. rewrite N.eqb_refl. cbn [lookup_ino]. rewrite N.eqb_refl. reflexivity.
+  - intros H. destruct (k =? i) eqn:E2; [apply N.eqb_eq in E2; subst; rewrite N.eqb_refl in E; discriminate|].
+    cbn [lookup_ino]. rewrite E. fold (replace_node r i n). apply IH. exact H.
+Qed.
+Lemma lookup_app_none nodes extra j : lookup_ino nodes j = None -> lookup_ino (nodes ++ extra) j = lookup_ino extra j.
+Proof.
+  induction nodes as [|[k m] r IH]; [reflexivity|]. cbn [lookup_ino app]. destruct (j =? k); [discriminate|exact IH].
+Qed.
+Lemma fresh_above nodes : forall acc j n, lookup_ino nodes j = Some n ->
+  j < fold_left (fun a kn => N.max a (fst kn + 1)) nodes acc.
+Proof.
+  induction nodes as [|[k m] r IH]; intros acc j n H; [discriminate|]. cbn [lookup_ino] in H. cbn [fold_left fst].
+  destruct (j =? k) eqn:E.
+  - apply N.eqb_eq in E. subst k. clear H IH.
+    assert (G : forall (l : list (N * inode)) a, a <= fold_left (fun a kn => N.max a (fst kn + 1)) l a).
+    { induction l as [|[k2 m2] l IHl]; intros a; cbn [fold_left fst]; [lia|]. specialize (IHl (N.max a (k2 + 1))). lia. }
+    specialize (G r (N.max acc (j + 1))). lia.
+  - eapply IH. exact H.
+Qed.
+Lemma fresh_not_in w : node w (fresh_ino w) = None.
+Proof.
+  unfold node, fresh_ino. destruct (lookup_ino (w_nodes w) _) as [n|] eqn:E; [|reflexivity].
+  pose proof (fresh_above (w_nodes w) 1 _ n E). lia.
+Qed.
+
+Definition same_dirs (w w0 : world) (i : N) : Prop :=
+  w_root w0 = w_root w /\ (forall k, k <> i -> node w0 k = node w k) /\
+  (exists d m s x d' m' s' x', node w i = Some (IFile d m s x) /\ node w0 i = Some (IFile d' m' s' x')).
+
+Lemma resolve_comps_same w w0 i : same_dirs w w0 i ->
+  forall comps cur, resolve_comps w0 cur comps = resolve_comps w cur comps.
+Proof.
+  intros [_ [Ho [d [m [s [x [d' [m' [s' [x' [Hi Hi0]]]]]]]]]]]. induction comps as [|c r IH]; intros cur; [reflexivity|].
+  cbn [resolve_comps]. destruct (N.eq_dec cur i) as [->|Hne].
+  - rewrite Hi, Hi0. reflexivity.
+  - rewrite (Ho cur Hne). destruct (node w cur) as [[dv par ents| |]|]; try reflexivity.
+    destruct c; [apply IH|]. destruct (is_dot _); [apply IH|]. destruct (is_dotdot _); [apply IH|].
+    destruct (lookup_name ents _) as [[k|e]|]; [apply IH|reflexivity|reflexivity].
+Qed.
+Lemma resolve_same w w0 i : same_dirs w w0 i -> forall p, resolve w0 p = resolve w p.
+Proof.
+  intros H p. pose proof H as [Hr [Ho [d [m [s [x [d' [m' [s' [x' [Hi Hi0]]]]]]]]]]]. unfold resolve.
+  destruct (existsb (N.eqb 0) p); [reflexivity|]. destruct (existsb bad_surrogate p); [reflexivity|].
+  rewrite Hr, (resolve_comps_same w w0 i H). destruct (resolve_comps w (w_root w) _) as [k|]; cbn [bind]; [|reflexivity].
+  destruct (py_endswith _ _); [|reflexivity]. destruct (N.eq_dec k i) as [->|Hne]; [rewrite Hi, Hi0; reflexivity|rewrite (Ho k Hne); reflexivity].
+Qed.
+
+(* after creating a new file [name] in directory [di]: whatever still resolves to an old inode resolved to it before *)
+Definition created (w w0 : world) (di : N) (dev par : N) (ents : list (list N * target)) (name : list N) : Prop :=
+  node w di = Some (IDir dev par ents) /\ lookup_name ents name = None /\ w_root w0 = w_root w /\
+  node w0 di = Some (IDir dev par (ents ++ [(name, TIno (fresh_ino w))])) /\
+  (exists fd fm fs fx, node w0 (fresh_ino w) = Some (IFile fd fm fs fx)) /\
+  (forall k, k <> di -> k <> fresh_ino w -> node w0 k = node w k).
+
+Lemma lookup_name_app ents name t c : lookup_name ents name = None ->
+  lookup_name (ents ++ [(name, t)]) c = if ustr_eqb c name then (match lookup_name ents c with Some x => Some x | None => Some t end) else lookup_name ents c.
+Proof.
+  intros Hn. induction ents as [|[m x] r IH]; cbn [app lookup_name].
+  - destruct (ustr_eqb c name); reflexivity.
+  - cbn [lookup_name] in Hn. destruct (ustr_eqb name m) eqn:E1; [discriminate|]. destruct (ustr_eqb c m) eqn:E2.
+    + destruct (ustr_eqb c name); reflexivity.
+    + apply IH. exact Hn.
+Qed.
+
+Lemma resolve_comps_created w w0 di dev par ents name : created w w0 di dev par ents name ->
+  forall comps cur k, resolve_comps w0 cur comps = Ok k -> k <> fresh_ino w -> resolve_comps w cur comps = Ok k.
+Proof.
+  intros [Hd [Hn [_ [Hd0 [[fd [fm [fs [fx Hf]]]] Ho]]]]]. induction comps as [|c r IH]; intros cur k H Hk.
+  - cbn in *. exact H.
+  - cbn [resolve_comps] in *. destruct (N.eq_dec cur (fresh_ino w)) as [->|Hnf].
+    + rewrite Hf in H. discriminate.
+    + destruct (N.eq_dec cur di) as [->|Hnd].
+      * rewrite Hd0 in H. rewrite Hd. destruct c as [|c0 c']; [apply IH; assumption|].
+        destruct (is_dot _); [apply IH; assumption|]. destruct (is_dotdot _); [apply IH; assumption|].
+        rewrite (lookup_name_app ents name _ (c0 :: c') Hn) in H.
+        destruct (ustr_eqb (c0 :: c') name) eqn:E.
+        -- apply ustr_eqb_eq in E. rewrite E in *. rewrite Hn in *.
+           (* the step goes through the new file: it cannot end at an old inode *)
+           exfalso. destruct r as [|c2 r2]; cbn [resolve_comps] in H; [inversion H; subst; apply Hk; reflexivity|].
+           rewrite Hf in H. discriminate.
+        -- destruct (lookup_name ents (c0 :: c')) as [[j|e]|]; [apply IH; assumption|exact H|exact H].
+      * rewrite (Ho cur Hnd Hnf) in H. destruct (node w cur) as [[dv pr es| |]|]; try exact H.
+        destruct c as [|c0 c']; [apply IH; assumption|].
+        destruct (is_dot _); [apply IH; assumption|]. destruct (is_dotdot _); [apply IH; assumption|].
+        destruct (lookup_name es (c0 :: c')) as [[j|e]|]; [apply IH; assumption|exact H|exact H].
+Qed.
+
+Lemma resolve_created w w0 di dev par ents name : created w w0 di dev par ents name ->
+  forall p k, resolve w0 p = Ok k -> k <> fresh_ino w -> resolve w p = Ok k.
+Proof.
+  intros C p k H Hk. pose proof C as [Hd [Hn [Hr [Hd0 [[fd [fm [fs [fx Hf]]]] Ho]]]]]. unfold resolve in *.
+  destruct (existsb (N.eqb 0) p); [discriminate|]. destruct (existsb bad_surrogate p); [discriminate|].
+  rewrite Hr in H. destruct (resolve_comps w0 (w_root w) _) as [k0|] eqn:E; cbn [bind] in H; [|discriminate].
+  assert (Hk0 : k0 = k).
+  { destruct (py_endswith _ _); [|inversion H; reflexivity]. destruct (node w0 k0) as [[| |]|]; inversion H; reflexivity. }
+  subst k0. rewrite (resolve_comps_created w w0 di dev par ents name C _ _ _ E Hk). cbn [bind].
+  destruct (py_endswith _ _); [|exact H].
+  destruct (N.eq_dec k di) as [->|Hnd]; [rewrite Hd0 in H; rewrite Hd; exact H|]. rewrite (Ho k Hnd Hk) in H. exact H.
+Qed.
+
+Lemma existsb_lookup_none ents name : lookup_name ents name = None ->
+  existsb (fun e : list N * target => ustr_eqb (fst e) name) ents = false.
+Proof.
+  induction ents as [|[m x] r IH]; [reflexivity|]. cbn [lookup_name existsb fst].
+  destruct (ustr_eqb name m) eqn:E; [discriminate|]. intros H. rewrite (IH H), orb_false_r.
+  destruct (ustr_eqb m name) eqn:E2; [|reflexivity]. apply ustr_eqb_eq in E2. subst m.
+  rewrite (proj2 (ustr_eqb_eq name name) eq_refl) in E. discriminate.
+Qed.
+Lemma lookup_replace_none nodes i n j : lookup_ino nodes j = None -> lookup_ino (replace_node nodes i n) j = None.
+Proof.
+  induction nodes as [|[k m] r IH]; [reflexivity|]. cbn [lookup_ino replace_node map fst].
+  destruct (j =? k) eqn:E; [discriminate|]. intros H. destruct (k =? i) eqn:E2.
+  - apply N.eqb_eq in E2. subst k. cbn [lookup_ino]. rewrite E. apply IH. exact H.
+  - cbn [lookup_ino]. rewrite E. apply IH. exact H.
+Qed.
+
+(* one write: afterwards the path names no file that existed before and was not named by it *)
+Lemma write_names_stable w path data mt w0 :
+  write_file w path data mt = Ok w0 ->
+  forall j d m s x, node w j = Some (IFile d m s x) -> names w0 path j -> names w path j.
+Proof.
+  unfold write_file. destruct (resolve w (dirname path)) as [di|] eqn:Er; cbn [bind]; [|discriminate].
+  destruct (node w di) as [[dev par ents| |]|] eqn:En; try discriminate.
+  destruct (lookup_name ents (basename path)) as [[i|e]|] eqn:El; try discriminate.
+  - (* rewriting the existing file i *)
+    destruct (node w i) as [[| fdev fm fs fx |]|] eqn:Ei; try discriminate.
+    intros H j d m s x Hj [di' [dv [pr [es [R [Nd Lk]]]]]]. injection H as Hw0. symmetry in Hw0.
+    assert (S : same_dirs w w0 i).
+    { split; [rewrite Hw0; reflexivity|]. split.
+      - intros k Hk. rewrite Hw0. unfold node. cbn [w_nodes]. apply lookup_replace_other. exact Hk.
+      - exists fdev, fm, fs, fx, fdev, mt, (N.of_nat (length data)), data. split; [exact Ei|].
+        rewrite Hw0. unfold node. cbn [w_nodes]. eapply lookup_replace_same. exact Ei. }
+    rewrite (resolve_same w w0 i S) in R.
+    assert (Hne : di' <> i).
+    { intros ->. destruct S as [_ [_ [? [? [? [? [? [? [? [? [_ Hi0]]]]]]]]]]]. rewrite Hi0 in Nd. discriminate. }
+    destruct S as [_ [Ho _]]. rewrite (Ho di' Hne) in Nd. exists di', dv, pr, es. repeat split; assumption.
+  - (* creating it *)
+    intros H j d m s x Hj [di' [dv [pr [es [R [Nd Lk]]]]]]. injection H as Hw0. symmetry in Hw0.
+    rewrite (existsb_lookup_none _ _ El) in Hw0.
+    assert (Hdf : di <> fresh_ino w) by (intros E; rewrite E in En; rewrite fresh_not_in in En; discriminate).
+    assert (C : created w w0 di dev par ents (basename path)).
+    { split; [exact En|]. split; [exact El|]. split; [rewrite Hw0; reflexivity|]. split; [|split].
+      - rewrite Hw0. unfold node. cbn [w_nodes]. apply lookup_app_some. eapply lookup_replace_same. exact En.
+      - exists dev, mt, (N.of_nat (length data)), data. rewrite Hw0. unfold node. cbn [w_nodes].
+        rewrite lookup_app_none; [cbn [lookup_ino]; rewrite N.eqb_refl; reflexivity|].
+        apply lookup_replace_none. exact (fresh_not_in w).
+      - intros k Hk1 Hk2. rewrite Hw0. unfold node. cbn [w_nodes].
+        destruct (lookup_ino (w_nodes w) k) as [nk|] eqn:Ek.
+        + apply lookup_app_some. rewrite lookup_replace_other by exact Hk1. exact Ek.
+        + rewrite lookup_app_none by (apply lookup_replace_none; exact Ek). cbn [lookup_ino].
+          destruct (k =? fresh_ino w) eqn:E; [apply N.eqb_eq in E; contradiction|reflexivity]. }
+    pose proof C as [_ [_ [_ [Hd0 [[fd [fm [fs [fx Hf]]]] Ho]]]]].
+    assert (Hnf : di' <> fresh_ino w) by (intros E; subst di'; congruence).
+    pose proof (resolve_created w w0 di dev par ents (basename path) C _ _ R Hnf) as R'. rewrite Er in R'. inversion R'; subst di'.
+    rewrite Hd0 in Nd. inversion Nd; subst. rewrite (lookup_name_app ents (basename path) _ (basename path) El) in Lk.
+    rewrite (proj2 (ustr_eqb_eq _ _) eq_refl), El in Lk. inversion Lk; subst j. rewrite fresh_not_in in Hj. discriminate.
+Qed.
+
+(* ---- save_manifest: the one file the Manifest path names is the only regular file that can change ---- *)
+Section SaveFrame.
+  Variable compress : list N -> list N -> res (list N).
+  Variable pgp_sign : list N -> option (list N) -> res (list N).
+  Variable wmtime : Z.
+
+  Theorem save_manifest_frame w l relpath sort w' l' n :
+    save_manifest compress pgp_sign wmtime w l relpath sort = Ok (w', l', n) ->
+    forall j d m s x, node w j = Some (IFile d m s x) -> ~ names w (pjoin rootdir relpath) j ->
+    node w' j = Some (IFile d m s x).
+  Proof.
+    unfold save_manifest. destruct (get_m l relpath) as [mf|]; [|discriminate].
+    destruct (write_file w (pjoin rootdir relpath) [] wmtime) as [w0|] eqn:W0; cbn [bind]; [|discriminate].
+    destruct (dump_entries _) as [text|]; cbn [bind]; [|discriminate].
+    match goal with |- context [if ?b then pgp_sign text _ else Ok text] => destruct (if b then pgp_sign text (o_keyid (l_opts l)) else Ok text) as [text'|] end;
+      cbn [bind]; [|discriminate].
+    destruct (utf8_encode text') as [raw|]; cbn [bind]; [|discriminate].
+    match goal with |- context [match compressed_suffix relpath with Some fmt => _ | None => Ok raw end] =>
+      destruct (match compressed_suffix relpath with
+                | Some fmt => if mem_str fmt codec_suffixes then compress fmt raw else Err (XUnsupportedCompression fmt)
+                | None => Ok raw end) as [data|] end; cbn [bind]; [|discriminate].
+    destruct (write_file w0 (pjoin rootdir relpath) data wmtime) as [w1|] eqn:W1; cbn [bind]; [|discriminate].
+    intros H j d m s x Hj Hn. inversion H; subst. clear H.
+    pose proof (write_file_frame _ _ _ _ _ W0 j d m s x Hj Hn) as Hj0.
+    apply (write_file_frame _ _ _ _ _ W1 j d m s x Hj0).
+    intros Hn0. apply Hn. exact (write_names_stable _ _ _ _ _ W0 j d m s x Hj Hn0).
+  Qed.
+End SaveFrame.
